@@ -89,7 +89,13 @@ class StringHolder(ObjectHolder[str]):
     @FeatureNew('str.splitlines', '1.2.0')
     @InterpreterObject.method('splitlines')
     def splitlines_method(self, args: T.List[TYPE_var], kwargs: TYPE_kwargs) -> T.List[str]:
-        return self.held_object.splitlines()
+        # Only '\n', '\r' and '\r\n' are line ends (see the reference manual);
+        # Python's str.splitlines() would also split on form feed, vertical
+        # tab, '\x1c'-'\x1e', '\x85' and the Unicode line/paragraph separators.
+        lines = re.split(r'\r\n|\r|\n', self.held_object)
+        if lines[-1] == '':
+            lines.pop()
+        return lines
 
     @noKwargs
     @typed_pos_args('str.join', varargs=str)
